@@ -322,7 +322,7 @@ pub fn chaos_doc(r: &mut Rng) -> RDoc {
 pub fn chain_doc(r: &mut Rng) -> (RDoc, String) {
     let l = *r.pick(&[10u32, 10, 200, 200, 1000, 1000, 20_000, 20_000, 200_000]);
     let cyc = r.bool();
-    let which = r.below(9);
+    let which = r.below(10);
     let mut d = RDoc::new();
     let dict = |e: Vec<(&str, RObj)>| RObj::Dict(e.into_iter().map(|(a, b)| (k(a), b)).collect());
     d.trailer = vec![(k("Root"), RObj::Ref(1, 0))];
@@ -409,6 +409,54 @@ pub fn chain_doc(r: &mut Rng) -> (RDoc, String) {
             d.objects.insert((3, 0), dict(vec![("Type", name("Page")), ("Parent", RObj::Ref(2, 0)), ("Contents", RObj::Array((0..m).map(|i| RObj::Ref(4 + (i % 3), 0)).collect()))]));
             d.objects.insert((4, 0), RObj::Stream(vec![], b"BT (a) Tj ET ".to_vec()));
             d.objects.insert((5, 0), RObj::Stream(vec![(k("Filter"), name("FlateDecode"))], b"not zlib".to_vec()));
+        }
+        9 => {
+            // layered lattices: every node of a level lists ALL nodes of the next level, so the structure is
+            // acyclic and small (levels x width nodes) but has width^levels distinct paths - a walk that
+            // guards only against cycles on the current path, not against revisiting, never finishes.
+            // Built for the three child-list shapes: name-tree Kids, page-tree Kids, outline First/Next.
+            label = "lattice";
+            let levels = *r.pick(&[12u32, 24, 40, 60]);
+            let width = 2 + r.below(2) as u32;
+            let mut next_id = 10u32;
+            let mut alloc = |n: u32| -> Vec<u32> {
+                let v: Vec<u32> = (next_id..next_id + n).collect();
+                next_id += n;
+                v
+            };
+            let names: Vec<Vec<u32>> = (0..levels).map(|_| alloc(width)).collect();
+            let pages: Vec<Vec<u32>> = (0..levels).map(|_| alloc(width)).collect();
+            let items: Vec<Vec<u32>> = (0..levels).map(|_| alloc(width)).collect();
+            let leaf_page = alloc(1)[0];
+            d.objects.insert((1, 0), dict(vec![("Type", name("Catalog")), ("Pages", RObj::Ref(pages[0][0], 0)), ("Names", RObj::Dict(vec![(k("Dests"), RObj::Ref(names[0][0], 0))])), ("Outlines", RObj::Ref(2, 0))]));
+            d.objects.insert((2, 0), dict(vec![("Type", name("Outlines")), ("First", RObj::Ref(items[0][0], 0)), ("Last", RObj::Ref(items[0][width as usize - 1], 0))]));
+            d.objects.insert((leaf_page, 0), dict(vec![("Type", name("Page")), ("Parent", RObj::Ref(pages[levels as usize - 1][0], 0))]));
+            for l in 0..levels as usize {
+                let last = l + 1 == levels as usize;
+                for (j, id) in names[l].iter().enumerate() {
+                    let mut e = vec![];
+                    if last {
+                        e.push(("Names", RObj::Array(vec![RObj::Str(format!("d{}", j).into_bytes(), false), RObj::Array(vec![RObj::Ref(leaf_page, 0), name("Fit")])])));
+                    } else {
+                        e.push(("Kids", RObj::Array(names[l + 1].iter().map(|x| RObj::Ref(*x, 0)).collect())));
+                    }
+                    d.objects.insert((*id, 0), dict(e));
+                }
+                for id in &pages[l] {
+                    let kids: Vec<RObj> = if last { vec![RObj::Ref(leaf_page, 0)] } else { pages[l + 1].iter().map(|x| RObj::Ref(*x, 0)).collect() };
+                    d.objects.insert((*id, 0), dict(vec![("Type", name("Pages")), ("Kids", RObj::Array(kids)), ("Count", RObj::Int(1))]));
+                }
+                for (j, id) in items[l].iter().enumerate() {
+                    let mut e = vec![("Title", RObj::Str(format!("i{}-{}", l, j).into_bytes(), false)), ("Dest", RObj::Array(vec![RObj::Ref(leaf_page, 0), name("Fit")]))];
+                    if j + 1 < items[l].len() {
+                        e.push(("Next", RObj::Ref(items[l][j + 1], 0)));
+                    }
+                    if !last {
+                        e.push(("First", RObj::Ref(items[l + 1][0], 0)));
+                    }
+                    d.objects.insert((*id, 0), dict(e));
+                }
+            }
         }
         _ => {
             // wide flat page tree (budget behaviour of the page iterator)
